@@ -7,7 +7,7 @@ From Pq Require Import Base.Bytes Base.Bits Base.ListX Proofs.BytesProofs Proofs
   Proofs.CompactProofs Codec.Varint Codec.Bitpack Codec.Hybrid Thrift.Compact Thrift.Idl Thrift.IdlPinned
   Format.Phys Format.Meta Format.Page Format.ChunkLayout Format.File Format.Enc.
 From Pq Require Import Proofs.HybridProofs Proofs.FormatCodecProofs Proofs.FormatPageProofs Proofs.FormatChunkProofs
-  Proofs.ChunkLayoutProofs.
+  Proofs.ChunkLayoutProofs Proofs.FormatMetaProofs.
 Import ListNotations.
 Open Scope N_scope.
 Open Scope list_scope.
@@ -387,6 +387,66 @@ Proof.
     + exact PF.
   - rewrite FILE, <- !app_assoc. reflexivity.
   - lia.
+Qed.
+
+(* ---- footer and file ----------------------------------------------------------------------------------- *)
+Definition file_meta (f : lfile) : fmd :=
+  let rgs := snd (fst (enc_rgs compress (l_leaves f) (l_rgs f) 4)) in
+  {| fm_version := 1; fm_schema := root_selem (lenN (l_leaves f)) :: map selem_of_l (l_leaves f);
+     fm_nrows := sumZ (map rg_nrows rgs); fm_rgs := rgs; fm_created_by := l_created_by f |}.
+
+Definition file_data (f : lfile) : bytes := concat (fst (fst (enc_rgs compress (l_leaves f) (l_rgs f) 4))).
+Definition file_footer (f : lfile) : bytes := wr (fmd_to_tv (file_meta f)).
+
+Lemma enc_file_eq f :
+  enc_file compress f = magic ++ file_data f ++ file_footer f ++ le_enc 4 (lenN (file_footer f)) ++ magic.
+Proof.
+  unfold enc_file, file_data, file_footer, file_meta.
+  destruct (enc_rgs compress (l_leaves f) (l_rgs f) 4) as [[bs rgs] pos]. cbn [fst snd].
+  now rewrite !app_tr_ok, concat_tr_ok.
+Qed.
+
+(* the footer is representable in the compact protocol and conforms to the IDL: integers within their
+   declared widths, strings shorter than 2^31, nesting <= 64, logical types of the leaves conformant;
+   all decidable, and checked by fmt_validate on every file the encoder produces *)
+Definition footer_ok (f : lfile) : Prop :=
+  wfb (fmd_to_tv (file_meta f)) = true /\ (depth (fmd_to_tv (file_meta f)) <= max_depth)%nat /\
+  conforms pinned idl_opts (FStruct "FileMetaData") (fmd_to_tv (file_meta f)) = true /\
+  lenN (file_footer f) < 2 ^ 32.
+
+Lemma magic_len : lenN magic = 4. Proof. reflexivity. Qed.
+
+Lemma dropN_at {A} (pre x : list A) n : n = lenN pre -> dropN n (pre ++ x) = x.
+Proof. intros ->. apply dropN_app_exact. Qed.
+Lemma takeN_at {A} (a b : list A) n : n = lenN a -> takeN n (a ++ b) = a.
+Proof. intros ->. apply takeN_app_exact. Qed.
+
+Theorem parse_footer_roundtrip f : footer_ok f ->
+  parse_footer (enc_file compress f) = ROk (file_meta f, 4 + lenN (file_data f), lenN (file_footer f)).
+Proof.
+  intros (WF & DP & CF & FL). rewrite enc_file_eq. unfold parse_footer.
+  set (D := file_data f). set (F := file_footer f). set (L := le_enc 4 (lenN F)).
+  assert (LL : lenN L = 4) by (unfold L; now rewrite lenN_ok, le_enc_length).
+  assert (TOT : lenN (magic ++ D ++ F ++ L ++ magic) = lenN D + lenN F + 12) by (rewrite !lenN_app, LL, magic_len; lia).
+  rewrite TOT.
+  destruct (N.leb_spec 12 (lenN D + lenN F + 12)) as [_|X]; [|lia]. cbn [guard rbind].
+  rewrite (takeN_at magic) by reflexivity. rewrite bytes_eqb_refl. cbn [guard rbind].
+  replace (magic ++ D ++ F ++ L ++ magic) with ((magic ++ D ++ F) ++ L ++ magic) by (now rewrite <- !app_assoc).
+  rewrite (dropN_at (magic ++ D ++ F)) by (rewrite !lenN_app, magic_len; lia).
+  rewrite (dropN_at L) by (now rewrite LL). rewrite bytes_eqb_refl. cbn [guard rbind].
+  rewrite (takeN_at L) by (now rewrite LL).
+  assert (LE : le2n_tr L = lenN F).
+  { unfold L. rewrite le2n_tr_ok, le2n_le_enc. change (256 ^ N.of_nat 4) with (2 ^ 32). now rewrite N.mod_small. }
+  rewrite !LE.
+  destruct (N.leb_spec (lenN F + 12) (lenN D + lenN F + 12)) as [_|X]; [|lia]. cbn [guard rbind].
+  replace ((magic ++ D ++ F) ++ L ++ magic) with ((magic ++ D) ++ F ++ L ++ magic) by (now rewrite <- !app_assoc).
+  rewrite (dropN_at (magic ++ D)) by (rewrite lenN_app, magic_len; lia).
+  rewrite (takeN_at F) by reflexivity.
+  unfold F at 1, file_footer. unfold thrift_dec, thrift_dec_ty.
+  pose proof (rd_wr true max_depth (fmd_to_tv (file_meta f)) [] DP WF) as R. rewrite app_nil_r in R.
+  change (nib (fmd_to_tv (file_meta f))) with 12 in R. rewrite R. cbn [guard rbind].
+  rewrite CF. cbn [guard rbind]. rewrite fmd_of_to.
+  do 3 f_equal. lia.
 Qed.
 
 End WithCodecs4.
